@@ -156,8 +156,8 @@ func (fr *Frame) call(st *State, cc *ssa.CallCommon, pos token.Pos) (*Val, *Stat
 				}
 				g := fr.evalBool(ac.Clause.Expr, st, fr.Entry, aenv)
 				fr.midEval = false
-				c.cover("at-call:"+ac.Callee+"@"+c.posKey(pos), st)
-				c.oblige(fr, "at-call", ac.Callee+"."+clauseName("", ac.Clause, i)+"@"+c.posKey(pos), st, g, "at every call to "+ac.Callee+": "+ac.Clause.Src, pos)
+				c.cover("at-call:"+ac.Callee+"@"+fr.callSiteKey(cc, pos), st)
+				c.oblige(fr, "at-call", ac.Callee+"."+clauseName("", ac.Clause, i)+"@"+fr.callSiteKey(cc, pos), st, g, "at every call to "+ac.Callee+": "+ac.Clause.Src, pos)
 				fr.atCallHit[i] = true
 			}
 		}
@@ -186,7 +186,7 @@ func (fr *Frame) call(st *State, cc *ssa.CallCommon, pos token.Pos) (*Val, *Stat
 			return nil, nil
 		}
 		if con := c.contractFor(callee); con != nil && !con.Inline {
-			return fr.applyContract(st, con, callee.String(), callee, sig, args, pos), st
+			return fr.applyContractAt(st, con, callee.String(), callee, sig, args, pos, cc), st
 		}
 		if fr.Depth < maxInlineDepth && c.inlinable(callee) && !fr.onStack(callee) {
 			return fr.inline(st, callee, args, closure, pos)
@@ -194,7 +194,7 @@ func (fr *Frame) call(st *State, cc *ssa.CallCommon, pos token.Pos) (*Val, *Stat
 	}
 	if cc.IsInvoke() {
 		if con := c.ifaceContract(cc); con != nil {
-			return fr.applyContract(st, con, name, nil, sig, args, pos), st
+			return fr.applyContractAt(st, con, name, nil, sig, args, pos, cc), st
 		}
 	}
 	// unknown: havoc
@@ -202,6 +202,43 @@ func (fr *Frame) call(st *State, cc *ssa.CallCommon, pos token.Pos) (*Val, *Stat
 	st.havocAll()
 	c.reassertConstGlobals(st)
 	return fr.freshResult(sig, shortName(name)), st
+}
+
+// callOrdinal: the 1-based position of this call among the calls to the same callee in the function, in source (block
+// index) order. Names built from it survive edits that merely shift lines.
+func callOrdinal(fn *ssa.Function, cc *ssa.CallCommon) int {
+	name := callName(cc)
+	n := 0
+	for _, b := range fn.Blocks {
+		for _, ins := range b.Instrs {
+			var c2 *ssa.CallCommon
+			switch x := ins.(type) {
+			case *ssa.Call:
+				c2 = &x.Call
+			case *ssa.Defer:
+				c2 = &x.Call
+			case *ssa.Go:
+				c2 = &x.Call
+			}
+			if c2 == nil || callName(c2) != name {
+				continue
+			}
+			n++
+			if c2 == cc {
+				return n
+			}
+		}
+	}
+	return 0
+}
+
+func (fr *Frame) callSiteKey(cc *ssa.CallCommon, pos token.Pos) string {
+	if cc != nil && fr.Top {
+		if n := callOrdinal(fr.Fn, cc); n > 0 {
+			return fmt.Sprintf("#%d", n)
+		}
+	}
+	return fr.C.posKey(pos)
 }
 
 func shortName(n string) string {
@@ -269,6 +306,10 @@ func (fr *Frame) inline(st *State, fn *ssa.Function, args []*Val, closure *Val, 
 
 // applyContract: assert requires, havoc modifies, assume ensures.
 func (fr *Frame) applyContract(st *State, con *Contract, name string, callee *ssa.Function, sig *types.Signature, args []*Val, pos token.Pos) *Val {
+	return fr.applyContractAt(st, con, name, callee, sig, args, pos, nil)
+}
+
+func (fr *Frame) applyContractAt(st *State, con *Contract, name string, callee *ssa.Function, sig *types.Signature, args []*Val, pos token.Pos, cc *ssa.CallCommon) *Val {
 	c := fr.C
 	c.UsedContracts[con.PkgPath+"."+con.Key] = true
 	env := map[string]*Val{}
@@ -281,7 +322,7 @@ func (fr *Frame) applyContract(st *State, con *Contract, name string, callee *ss
 	if c.noObligations == 0 {
 		for i, rq := range con.Requires {
 			g := fr.evalBoolEnv(rq.Expr, st, pre, env)
-			c.oblige(fr, "call-pre", short+"."+clauseName("", rq, i)+"@"+c.posKey(pos), st, g, "precondition of "+name+": "+rq.Src, pos)
+			c.oblige(fr, "call-pre", short+"."+clauseName("", rq, i)+"@"+fr.callSiteKey(cc, pos), st, g, "precondition of "+name+": "+rq.Src, pos)
 		}
 	} else {
 		for _, rq := range con.Requires {
@@ -411,6 +452,11 @@ func (fr *Frame) havocLoc(st, pre *State, m string, env map[string]*Val) {
 	if m == "*" {
 		st.havocAll()
 		c.reassertConstGlobals(st)
+		return
+	}
+	if isRawPrefix(m) {
+		// type-level entry: the named heap array(s) may change for every object
+		st.havocKeys([]string{m}, nil)
 		return
 	}
 	all := false
@@ -929,9 +975,16 @@ func (c *Ctx) scanCallWrites(cc *ssa.CallCommon, w *writeSet, depth int, seen ma
 }
 
 // modPrefixes maps a modifies entry to heap key prefixes using static types only.
+func isRawPrefix(m string) bool {
+	return strings.HasPrefix(m, "T:") || strings.HasPrefix(m, "S:") || strings.HasPrefix(m, "M:") || strings.HasPrefix(m, "MF:") || m == "bigval"
+}
+
 func (c *Ctx) modPrefixes(con *Contract, callee *ssa.Function, cc *ssa.CallCommon, m string) ([]string, bool) {
 	if m == "*" {
 		return nil, false
+	}
+	if isRawPrefix(m) {
+		return []string{m}, true
 	}
 	expr := strings.TrimSuffix(strings.TrimSuffix(m, ".*"), "[*]")
 	e, err := ParseSpec(expr)
@@ -1057,7 +1110,15 @@ func (c *Ctx) modPrefixes(con *Contract, callee *ssa.Function, cc *ssa.CallCommo
 	}
 	rootK := rootKey(p.Elem())
 	cur = p.Elem()
-	for _, s := range sels {
+	for si, s := range sels {
+		if si == len(sels)-1 {
+			if mf := c.modelField(cur, s); mf != nil {
+				return []string{modelKey(mf)}, true
+			}
+		}
+		if pp, isP := under(cur).(*types.Pointer); isP {
+			cur = pp.Elem()
+		}
 		stt, ok := under(cur).(*types.Struct)
 		if !ok {
 			return nil, false
